@@ -22,16 +22,27 @@ Proof. reflexivity. Qed.
 
 (* symbolic execution of the machine: one [run] iteration at a time; every call into a hole
    (an abstract plan) and every class test on an abstract exception is split into its cases *)
+Ltac class_consts :=
+  repeat first
+    [ progress change (is_GeneratorExit EGeneratorExit) with true
+    | progress change (is_Exception EGeneratorExit) with false
+    | progress change (is_GeneratorExit ERuntimeError) with false
+    | progress change (is_Exception ERuntimeError) with true
+    | progress change (is_GeneratorExit ETypeError) with false
+    | progress change (is_Exception ETypeError) with true ].
 Ltac sim_red :=
-  cbn -[run hole_outcome close_result is_GeneratorExit is_Exception Nat.add after_raise];
-  try (progress unfold after_raise;
-       cbn -[run hole_outcome close_result is_GeneratorExit is_Exception Nat.add after_raise]).
+  class_consts;
+  cbn -[run hole_outcome close_result is_GeneratorExit is_Exception Nat.add after_raise handle];
+  class_consts;
+  try (progress unfold after_raise, handle;
+       cbn -[run hole_outcome close_result is_GeneratorExit is_Exception Nat.add after_raise handle]).
 Ltac sim_step hres :=
   first
     [ progress (rewrite run_S)
     | match goal with |- context [hole_outcome (hres ?a ?b)] => destruct (hres a b) eqn:?; unfold hole_outcome end
     | match goal with |- context [close_result (hres ?a ?b)] => destruct (hres a b) eqn:?; unfold close_result end
     | match goal with |- context [cb ?b] => is_var b; destruct b end
+    | match goal with |- context [if ?b then _ else _] => is_var b; destruct b end
     | match goal with |- context [is_GeneratorExit ?e] => destruct (is_GeneratorExit e) eqn:? end
     | match goal with |- context [is_Exception ?e] => destruct (is_Exception e) eqn:? end ];
   try match goal with
@@ -52,7 +63,7 @@ Section Contingency.
   Definition ret0 : stmt := SReturn (RVar 0).
   Definition env1 (v : val) : list val := [v; VInt 1].
 
-  Definition spec (o : cw_opts) := cw_lresume hres true o 1 2 3 exc_plan else_plan fin_plan.
+  Definition spec (o : cw_opts) := cw_lresume hres true o false 1 2 3 exc_plan else_plan fin_plan.
 
   (* frames / locals of the wrapper while its final plan runs, for the pending completion c *)
   Inductive final_shape : completion -> list frame -> list val -> Prop :=
@@ -75,6 +86,16 @@ Section Contingency.
                              (cw_else o) (cw_finally o);
                         KSeq ret0] (env1 VNone) None]
                 [HLive p; HFun f1; HFun f2; HFun f3])
+    | R_pause e :
+        is_Exception e = true ->
+        R o (PhPause e)
+          (mkSt [mkAct [KRecv (Some 0); KSeq ret0] [] None;
+                 mkAct [KRecv (Some 0); KSeq ret0] [] None;
+                 mkAct [KRecv None;
+                        KSeq (SIf (cb (o_exc o))
+                                  (SSeq (SYieldFromHole (Some 0) 1) (SIf (cb (o_auto o)) SReraise ret0)) SReraise);
+                        KHandler e (cw_finally o); KSeq ret0] (env1 VNone) None]
+                [HDead; HFun f1; HFun f2; HFun f3])
     | R_exc q e :
         R o (PhExcept q e)
           (mkSt [mkAct [KHoleRecv (Some 0) 1; KSeq (SIf (cb (o_auto o)) SReraise ret0);
@@ -93,17 +114,19 @@ Section Contingency.
   Ltac fin_goal :=
     repeat split;
     try solve [ reflexivity
+              | constructor; assumption
               | constructor
               | econstructor; constructor ].
 
   Lemma cw_sim :
-    forall be bl bf ba ph st, R (mkOpts be bl bf ba false) ph st -> forall i fuel,
-      step_rel (Rr (mkOpts be bl bf ba false)) (pg_lresume hres (40 + fuel) st i) (spec (mkOpts be bl bf ba false) ph i).
+    forall be bl bf ba bp ph st, R (mkOpts be bl bf ba bp) ph st -> forall i fuel,
+      step_rel (Rr (mkOpts be bl bf ba bp)) (pg_lresume hres (60 + fuel) st i) (spec (mkOpts be bl bf ba bp) ph i).
   Proof.
-    intros be bl bf ba ph st H i fuel. unfold step_rel, spec, pg_lresume.
-    destruct H as [p|p|q e|q v|q c k env hs FS FH].
+    intros be bl bf ba bp ph st H i fuel. unfold step_rel, spec, pg_lresume.
+    destruct H as [p|p|e0 HE|q e|q v|q c k env hs FS FH].
     - destruct i as [[|z]|e|]; sim hres; fin_goal.
     - destruct i as [w|e|]; sim hres; fin_goal.
+    - destruct i as [w|e'|]; sim hres; fin_goal.
     - destruct i as [w|e'|]; sim hres; fin_goal.
     - destruct i as [w|e'|]; sim hres; fin_goal.
     - destruct FS, FH; destruct i as [x|e2|]; sim hres; fin_goal.
@@ -124,15 +147,15 @@ Section Finalize.
   (* final_plan given as an instance, or as a callable (called before the try: nothing runs) *)
   Definition fin_hole (callable : bool) : hole_state P := if callable then HFun f3 else HLive fin_plan.
 
-  Definition fspec := cw_lresume hres true finalize_opts 1 2 1 (fun _ => fin_plan) fin_plan fin_plan.
+  Definition fspec (pfd : bool) := cw_lresume hres true (finalize_opts pfd) true 1 2 1 (fun _ => fin_plan) fin_plan fin_plan.
 
   Inductive ffinal_shape : completion -> list frame -> list val -> Prop :=
     | ffs_exc e v : ffinal_shape (CExc e) [KFin (CExc e); KSeq ret0] (env1 v)
     | ffs_else v : ffinal_shape (CRet v) [KFin CNormal; KSeq ret0] (env1 v).
 
-  Definition fw_handlers : list (epat * stmt) :=
+  Definition fw_handlers (pfd : bool) : list (epat * stmt) :=
     [(PGeneratorExit, SSeq (set_cleanup false) SReraise);
-     (PBase, SSeq (SIf (cb false) pause_call SPass) SReraise)].
+     (PBase, SSeq (SIf (cb pfd) pause_call SPass) SReraise)].
   Definition fd_handlers : list (epat * stmt) := [(PGeneratorExit, SSeq (set_cleanup false) SReraise)].
 
   (* [prog] / [handlers]: finalize_wrapper_prog false with fw_handlers, or finalize_decorator_prog true
@@ -143,6 +166,12 @@ Section Finalize.
         RF prog handlers callable (PhBody p)
            (mkSt [mkAct [KHoleRecv (Some 0) 0; KTry handlers SPass fin_stmt; KSeq ret0] (env1 VNone) None]
                  [HLive p; fin_hole callable])
+    | RF_pause e :
+        RF prog handlers callable (PhPause e)
+           (mkSt [mkAct [KRecv (Some 0); KSeq ret0] [] None;
+                  mkAct [KRecv (Some 0); KSeq ret0] [] None;
+                  mkAct [KRecv None; KSeq SReraise; KHandler e fin_stmt; KSeq ret0] (env1 VNone) None]
+                 [HDead; fin_hole callable])
     | RF_final q c k env :
         ffinal_shape c k env ->
         RF prog handlers callable (PhFinal q c) (mkSt [mkAct (KHoleRecv None 1 :: k) env None] [HDead; HLive q]).
@@ -151,16 +180,17 @@ Section Finalize.
 
   Ltac fin_goal :=
     repeat split;
-    try solve [ reflexivity | constructor | econstructor; constructor ].
+    try solve [ reflexivity | constructor; assumption | constructor | econstructor; constructor ].
 
   Lemma fw_sim :
-    forall callable ph st, RF (finalize_wrapper_prog false) fw_handlers callable ph st -> forall i fuel,
-      step_rel (RFr (finalize_wrapper_prog false) fw_handlers callable)
-               (pg_lresume hres (40 + fuel) st i) (fspec ph i).
+    forall pfd callable ph st, RF (finalize_wrapper_prog pfd) (fw_handlers pfd) callable ph st -> forall i fuel,
+      step_rel (RFr (finalize_wrapper_prog pfd) (fw_handlers pfd) callable)
+               (pg_lresume hres (60 + fuel) st i) (fspec pfd ph i).
   Proof.
-    intros callable ph st H i fuel. unfold step_rel, fspec, pg_lresume, finalize_opts.
-    destruct H as [p|p|q c k env FS].
+    intros pfd callable ph st H i fuel. unfold step_rel, fspec, pg_lresume, finalize_opts.
+    destruct H as [p|p|e0|q c k env FS].
     - destruct callable, i as [[|z]|e|]; sim hres; fin_goal.
+    - destruct callable, i as [w|e|]; sim hres; fin_goal.
     - destruct callable, i as [w|e|]; sim hres; fin_goal.
     - destruct FS; destruct i as [x|e2|]; sim hres; fin_goal.
   Qed.
@@ -168,11 +198,12 @@ Section Finalize.
   Lemma fd_sim :
     forall ph st, RF (finalize_decorator_prog true) fd_handlers true ph st -> forall i fuel,
       step_rel (RFr (finalize_decorator_prog true) fd_handlers true)
-               (pg_lresume hres (40 + fuel) st i) (fspec ph i).
+               (pg_lresume hres (60 + fuel) st i) (fspec false ph i).
   Proof.
     intros ph st H i fuel. unfold step_rel, fspec, pg_lresume, finalize_opts.
-    destruct H as [p|p|q c k env FS].
+    destruct H as [p|p|e0|q c k env FS].
     - destruct i as [[|z]|e|]; sim hres; fin_goal.
+    - destruct i as [w|e|]; sim hres; fin_goal.
     - destruct i as [w|e|]; sim hres; fin_goal.
     - destruct FS; destruct i as [x|e2|]; sim hres; fin_goal.
   Qed.
@@ -191,7 +222,7 @@ Section PythonTry.
   Notation ret0 := (SReturn (RVar 0)).
   Notation pfin o := (SIf (cb (o_fin o)) (SYieldFromHole None 3) SPass).
 
-  Definition pspec (o : cw_opts) := cw_lresume hres false o 1 2 3 exc_plan else_plan fin_plan.
+  Definition pspec (o : cw_opts) := cw_lresume hres false o false 1 2 3 exc_plan else_plan fin_plan.
 
   Inductive pfinal_shape : completion -> list frame -> list val -> Prop :=
     | pfs_exc e env : pfinal_shape (CExc e) [KFin (CExc e); KSeq ret0] env
@@ -210,6 +241,16 @@ Section PythonTry.
            (mkSt [mkAct [KHoleRecv (Some 0) 0; KTry [(PException, cw_handler o)] (cw_else o) (pfin o); KSeq ret0]
                         [] None]
                  [HLive p; HFun f1; HFun f2; HFun f3])
+    | RP_pause e :
+        is_Exception e = true ->
+        RP o (PhPause e)
+           (mkSt [mkAct [KRecv (Some 0); KSeq ret0] [] None;
+                  mkAct [KRecv (Some 0); KSeq ret0] [] None;
+                  mkAct [KRecv None;
+                         KSeq (SIf (cb (o_exc o))
+                                   (SSeq (SYieldFromHole (Some 0) 1) (SIf (cb (o_auto o)) SReraise ret0)) SReraise);
+                         KHandler e (pfin o); KSeq ret0] [] None]
+                 [HDead; HFun f1; HFun f2; HFun f3])
     | RP_exc q e :
         RP o (PhExcept q e)
            (mkSt [mkAct [KHoleRecv (Some 0) 1; KSeq (SIf (cb (o_auto o)) SReraise ret0);
@@ -227,17 +268,18 @@ Section PythonTry.
 
   Ltac fin_goal :=
     repeat split;
-    try solve [ reflexivity | constructor | econstructor; constructor ].
+    try solve [ reflexivity | constructor; assumption | constructor | econstructor; constructor ].
 
   Lemma py_sim :
-    forall be bl bf ba ph st, RP (mkOpts be bl bf ba false) ph st -> forall i fuel,
-      step_rel (RPr (mkOpts be bl bf ba false)) (pg_lresume hres (40 + fuel) st i)
-               (pspec (mkOpts be bl bf ba false) ph i).
+    forall be bl bf ba bp ph st, RP (mkOpts be bl bf ba bp) ph st -> forall i fuel,
+      step_rel (RPr (mkOpts be bl bf ba bp)) (pg_lresume hres (60 + fuel) st i)
+               (pspec (mkOpts be bl bf ba bp) ph i).
   Proof.
-    intros be bl bf ba ph st H i fuel. unfold step_rel, pspec, pg_lresume.
-    destruct H as [p|p|q e|q v|q c k env hs FS FH].
+    intros be bl bf ba bp ph st H i fuel. unfold step_rel, pspec, pg_lresume.
+    destruct H as [p|p|e0 HE|q e|q v|q c k env hs FS FH].
     - destruct i as [[|z]|e|]; sim hres; fin_goal.
     - destruct i as [w|e|]; sim hres; fin_goal.
+    - destruct i as [w|e'|]; sim hres; fin_goal.
     - destruct i as [w|e'|]; sim hres; fin_goal.
     - destruct i as [w|e'|]; sim hres; fin_goal.
     - destruct FS, FH; destruct i as [x|e2|]; sim hres; fin_goal.
